@@ -2,6 +2,7 @@ package main
 
 import (
 	"fmt"
+	"os"
 	"regexp"
 	"strings"
 )
@@ -97,6 +98,9 @@ func checkC08(r *Run) {
 			continue
 		}
 		r.Eval()
+		if os.Getenv("VERIF_DEBUG") == m.obj.Name && m.obj.Name != "" {
+			fmt.Printf("DEBUG %s %s [%s] doc=%s validateErr=%q strictErr=%q panic=%q\n", m.cs.Format, m.obj.Name, m.doc.Label, truncate(string(q.Doc), 200), resp.ValidateErr, resp.StrictErr, resp.Panic)
+		}
 		r.Distinct(q.ID + string(q.Doc))
 		replay := map[string]any{"format": m.cs.Format, "object": m.obj.Name, "document": string(q.Doc), "label": m.doc.Label, "schema": string(m.cs.SchemaText)}
 		if resp.Panic != "" {
